@@ -90,6 +90,22 @@ def bounded_cases(ctx: Ctx):
                         if c["method"] == "cohorts":
                             c["method"] = "map-reduce"
             cases.append(c)
+    # mixed label kinds: an in-memory grouper whose groups are discovered from the data next to a dask grouper with
+    # requested groups (the codes of the in-memory grouper must mean the same thing in every block)
+    k = 0
+    for func in ("sum", "count", "nanmax", "nanargmax", "nanfirst"):
+        for lab0 in ([30, 10, 30, 10, 20, 20, 10, 30], [20.0, "nan", 10.0, 10.0, 30.0, 20.0, 30.0, 10.0], [10, 10, 20, 20, 30, 30, 10, 20]):
+            for ch in ([4, 4], [3, 3, 2], [1] * 8, [8]):
+                for sort in (True, False):
+                    k += 1
+                    if ctx.quick and k % 3:
+                        continue
+                    b0 = np.array([float("nan") if x == "nan" else x for x in lab0])
+                    b1 = np.array([0, 0, 1, 1, 0, 0, 1, 1])
+                    vals = np.array([1.0, -2.0, 3.0, 0.5, float("nan"), 4.0, -1.0, 2.0])
+                    cases.append(dict(array=enc(vals), by=[enc(b0), enc(b1)], nby=2, func=func, expected_groups=[None, [0, 1]], expected_tuple=True, sort=sort,
+                                      fill_value=(-1 if "arg" in func else ("nan" if func != "count" else 0)), chunks=[ch], by_chunks=[None if k % 2 else [ch], [ch]],
+                                      method=[None, "map-reduce"][k % 2]))
     return cases
 
 
